@@ -132,8 +132,9 @@ def _(c):
     c.ensures('len(ui_trace()) == old(len(ui_trace())) + (1 if stop else 0)', 'one_ui_request_iff_breakpoint_matches')
     c.ensures('(not stop) or ui_trace()[old(len(ui_trace()))] == 1', 'the_request_is_pause')
     c.ensures('len(out_text()) >= old(len(out_text())) + (1 if stop else 0)', 'stop_notice')
+    c.ensures('ui_state() is None or (ui_state()._paused == (old(ui_state()._paused) or stop) and ui_state()._should_quit == old(ui_state()._should_quit))', 'registered_ui_state_paused_iff_breakpoint_matches')
     c.ensures('all(out_kind()[k] == old(out_kind())[k] and out_msg()[k] is old(out_msg())[k] for k in range(0, old(len(out_text()))))', 'earlier_entries_kept')
-    c.modifies('list(self.all_messages)', 'self.last_shown_timestamp', 'trace', 'ui')
+    c.modifies('list(self.all_messages)', 'self.last_shown_timestamp', 'trace', 'ui', 'when(ui_state() is not None, ui_state()._paused)')
     c.epoch_preserving().unfold(5)
     c.native_gen(_gen_got_message)
 
@@ -141,15 +142,15 @@ def _(c):
 @contract('interfaces.ui_state.UIState.Listener.pause_requested')
 def _(c):
     c.trusted('disseminator contract (core.util.generate_disseminator): the call reaches every registered listener once').interface()
-    c.epoch_preserving().effect('ui_event(1)')
+    c.epoch_preserving().effect('ui_event(1)\nif ui_state() is not None:\n    ui_state()._paused = True')
 @contract('interfaces.ui_state.UIState.Listener.resume_requested')
 def _(c):
     c.trusted('disseminator contract').interface()
-    c.epoch_preserving().effect('ui_event(2)')
+    c.epoch_preserving().effect('ui_event(2)\nif ui_state() is not None:\n    ui_state()._paused = False')
 @contract('interfaces.ui_state.UIState.Listener.quit_requested')
 def _(c):
     c.trusted('disseminator contract').interface()
-    c.epoch_preserving().effect('ui_event(3)')
+    c.epoch_preserving().effect('ui_event(3)\nif ui_state() is not None:\n    ui_state()._should_quit = True')
 
 
 def _gen_show_messages(rnd):
